@@ -322,7 +322,7 @@ fn gen_cases(ctx: &Ctx) -> Vec<Case> {
             });
         }
         cases.push(Case {
-            class: "runs".into(), len: 20_000, split: "all".into(), flush_every: 0, flush_on_empty: false,
+            class: "runs".into(), len: 5_000, split: "all".into(), flush_every: 0, flush_on_empty: false,
             raw_write: false, level: 1, end: "finish".into(), pseed: 5,
         });
         return cases;
